@@ -86,6 +86,12 @@ def call_builtin(I, name, args, kwargs, env):
         raise Unsupported('dict()')
     if name in ('any', 'all'):
         (x,) = args
+        if isinstance(x, SSeq):
+            # over a symbolic sequence: any = some element is true (the filtered pipe is not empty); all = no element is false
+            from .loops import _pointwise
+            if name == 'any':
+                return I.pipes.observable(x.with_stage('filter', _pointwise(I, lambda v: I.truth(v))), 'ne')
+            return _not(I.pipes.observable(x.with_stage('filter', _pointwise(I, lambda v: _not(I.truth(v)))), 'ne'))
         items = I.iterate_guarded(x)
         if name == 'any':
             acc = False
@@ -210,6 +216,11 @@ def call_builtin(I, name, args, kwargs, env):
         (x,) = args
         if isinstance(x, SObj):
             return x.cls
+        for pyt, nm in ((type(None), 'NoneType'), (bool, 'bool'), (int, 'int'), (str, 'str'), (list, 'list'), (dict, 'dict'), (tuple, 'tuple'), (set, 'set')):
+            if isinstance(x, pyt):
+                return BuiltinExcClass(nm, [nm])      # a built-in class known by its name only
+        if isinstance(x, SStr):
+            return BuiltinExcClass('str', ['str'])
         raise Unsupported('type()')
     if name == 'filter':
         fn, xs = args
